@@ -101,6 +101,15 @@ let () = iter_lines (fun line ->
     | None -> "?"
     | Some o ->
       let pr = proto_ok !cfg !st o in
+      (* the GENERATED functions executed on the pre-state (DiffRun.v) *)
+      let gen = (match o with
+        | OpAlloc (h, cnt, _) ->
+          let (((ptr, rc), c1), c2) = DiffRun.gen_alloc !cfg !st h cnt in
+          Printf.sprintf "g%s:%s:%s:%s" (string_of_z ptr) (b01 rc) (string_of_z c1) (string_of_z c2)
+        | OpDealloc (h, _, cnt, _) ->
+          let ((r, c1), c2) = DiffRun.gen_dealloc !cfg !st h cnt in
+          Printf.sprintf "g%s:%s:%s" (string_of_z r) (string_of_z c1) (string_of_z c2)
+        | _ -> "g-") in
       let hk = (match o with OpAllocFail (h, cnt, _) -> h_ok !cfg !st (OpAlloc (h, cnt, O)) | _ -> h_ok !cfg !st o) in
       let is_fail = (match o with OpAllocFail _ | OpSoccFail _ -> true | _ -> false) in
       let query = (match o with OpQuery (a, b) -> Some (alloc_eq !st a b) | _ -> None) in
@@ -114,7 +123,7 @@ let () = iter_lines (fun line ->
              Printf.sprintf "%d %d %s %s %d 1" (int p.prefs) (int p.pcount) (string_of_z (fst p.pparams)) (string_of_z (snd p.pparams))
                (int ((!st).cached ob.o_pool))
            else "dead" in
-         Printf.sprintf "%s %s %d %d %s %s %s" (if is_fail then "E" else match query with Some r -> (if r then "Q1" else "Q0") | None -> tag_str ob.o_dest) ps (int ob.o_allocs) (int ob.o_frees)
-           (b01 hk) (b01 (routed_ok ob)) (b01 pr)
+         Printf.sprintf "%s %s %d %d %s %s %s %s" (if is_fail then "E" else match query with Some r -> (if r then "Q1" else "Q0") | None -> tag_str ob.o_dest) ps (int ob.o_allocs) (int ob.o_frees)
+           (b01 hk) (b01 (routed_ok ob)) (b01 pr) gen
        | _ -> stuck := true; "STUCK")) evs in
   print_endline (String.concat " ; " out))
